@@ -43,3 +43,18 @@ package reachability
 //@   loop 4 invariant conv_4: istype(WI(), *ssa.MakeInterface) ==> called(findInterfaceCallees, program, WI().(*ssa.MakeInterface).Type(), WI().(*ssa.MakeInterface).X, _)
 //@   loop 3 invariant trav_b: bi < iter(3) ==> called(preTraversalVisitValuesInstruction, WI(), _, _)
 //@   loop 4 invariant trav_i: bi < iter(3) || (bi == iter(3) && ii < iter(4)) ==> called(preTraversalVisitValuesInstruction, WI(), _, _)
+
+// C07 / C18: entry-point selection never dereferences a missing package (synthetic
+// wrappers of promoted methods have Pkg == nil and may be called main or init), and
+// selects main.main and main.init unless they are excluded.
+//@ spec onList(l []*ssa.Function, x *ssa.Function) bool = exists j int :: 0 <= j && j < len(l) && l[j] == x
+//@ spec mainPkgFunc(g *ssa.Function, name string) bool = g.Name() == name && g.Pkg != nil && g.Pkg.Pkg.Name() == "main"
+//@ func findEntryPoints
+//@   property C07 C18
+//@   option append_both
+//@   requires forall g *ssa.Function :: has(allFunctions, g) ==> g != nil
+//@   safety
+//@   ensures main_is_entry: forall g *ssa.Function :: has(allFunctions, g) && !excludeMain && mainPkgFunc(g, "main") ==> onList(result, g)
+//@   ensures init_is_entry: forall g *ssa.Function :: has(allFunctions, g) && !excludeInit && mainPkgFunc(g, "init") ==> onList(result, g)
+//@   loop f invariant fresh: isfresh(entryPoints)
+//@   loop f invariant so_far: forall g *ssa.Function :: visited(f, g) && ((!excludeMain && mainPkgFunc(g, "main")) || (!excludeInit && mainPkgFunc(g, "init"))) ==> onList(entryPoints, g)
